@@ -31,7 +31,7 @@ m = {
         "guard": "verif",
         "enable": "go build -tags verif (the harness in /verif/harness is built with -tags verif against /repo via a replace directive)",
         "baseline_off_cmd": "cd /repo && GOFLAGS=-mod=mod GOPROXY=off GOSUMDB=off go test -vet=off -count=1 ./... && cd cmd/xtpl && GOFLAGS=-mod=mod GOPROXY=off GOSUMDB=off go test -vet=off -count=1 ./...",
-        "source_commits": [],
+        "source_commits": ["a4af134"],
         "add_only": True,
     },
     "engines": [{"name": "coq-model+correspondence", "path": "check", "serves_properties": [c["property_id"] for c in checks],
